@@ -22,6 +22,13 @@ TNext ==
                           c \in When(~C13_History_Node(k, q, e.issue), "C13_History_Node")
                                 \cup When(~C13_HistoryKeeps(k, q, k2), "C13_HistoryKeeps")}
             /\ drift' = drift \cup (IF m.kept[e.p] = k2 /\ m.issue[e.p] = e.issue /\ st.kept[e.p] = k THEN {} ELSE {l})
+       \* a quote created and signed by the node itself (ant-node create_quote_for_storecost)
+       ELSE IF e.ev = "NodeQuote" THEN
+            /\ st' = st
+            /\ viol' = viol \cup {[clause |-> c, line |-> l] :
+                          c \in When(e.other \/ \E i \in 1..Len(e.altered) : e.altered[i], "C13_Bound_Node")}
+            \* not in the statement: the node's own quote verifies for it and carries what was asked for
+            /\ drift' = drift \cup (IF e.res = "ok" /\ e.own /\ e.content_ok /\ e.metrics_ok /\ e.rewards_ok /\ e.fresh THEN {} ELSE {l})
        ELSE st' = st /\ viol' = viol \cup {[clause |-> "Malformed", line |-> l]} /\ UNCHANGED drift
 TSpec == TInit /\ [][TNext]_tvars
 Report == l = N + 1 => ndJsonSerialize(IOEnv.OUT, << [lines |-> N, violations |-> SetToSeq(viol), drift |-> SetToSeq(drift)] >>)
